@@ -1675,7 +1675,7 @@ def src_1(ctx, rep):
     rep.rule('SRC-1', 'in Grammar.parse the source text is only decoded (python_bytes_to_unicode) and cut into lines '
                       '(split_lines(..., keepends=True)); no other function or method is applied to it on its way to the tokenizer')
     GRAMMAR = 'parso/grammar.py'
-    f = ctx.prog.func(GRAMMAR, 'Grammar.parse')
+    f = ctx.view(ctx.prog.func(GRAMMAR, 'Grammar.parse'))      # the steps parse was split into are read in place
     params = set(f.all_params())
     # the text variable: the argument of the decoder; the lines variable: assigned from split_lines
     text_vars, line_vars = set(), set()
@@ -1684,6 +1684,8 @@ def src_1(ctx, rep):
             text_vars.add(n.args[0].id)
         if isinstance(n, ast.Assign) and isinstance(n.value, ast.Call) and norm(n.value.func).split('.')[-1] == 'split_lines':
             line_vars |= {t.id for t in n.targets if isinstance(t, ast.Name)}
+        if isinstance(n, ast.Assign) and isinstance(n.value, ast.Call) and norm(n.value.func).split('.')[-1] == 'python_bytes_to_unicode':
+            text_vars |= {t.id for t in n.targets if isinstance(t, ast.Name)}      # the decoded text may get a name of its own
     if not text_vars or not line_vars:
         raise AnalysisError('SRC-1: decode / split_lines steps of Grammar.parse not found')
     n_sites = 0
@@ -1697,7 +1699,7 @@ def src_1(ctx, rep):
             n_sites += 1
             callee = norm(v.func).split('.')[-1] if isinstance(v, ast.Call) else None
             ok = (callee == 'python_bytes_to_unicode') or (isinstance(v, ast.Call) and isinstance(v.func, ast.Attribute) and v.func.attr == 'read'
-                                                           and not v.args) or (isinstance(v, ast.Name) and v.id in params)
+                                                           and not v.args) or (isinstance(v, ast.Name) and (v.id in params or v.id in text_vars))
             rep.ob('SRC-1', GRAMMAR, f.qual, norm(n), ok and isinstance(n, ast.Assign),
                    'the source text is changed by something other than the decoder before it is tokenized: the tree no longer '
                    'spells the input')
